@@ -281,6 +281,12 @@ def run_unit(spec, unit, cfile, lines, outdir, tier='quick', trace=False, extra_
         unwind = unwind.get(tier, unwind.get('quick'))
     if unwind:
         flags += ['--unwind', str(unwind), '--unwinding-assertions']
+    elif not unit.get('_no_loop_contracts') and '--unwind' not in unit.get('flags', []):
+        # safety net, not a bound on the proof: every loop of a contract unit is closed by a loop contract or by a cut point,
+        # and harness loops are short and constant.  A residual loop (e.g. a control-flow rewrite that a source change turned
+        # into a back edge) would otherwise be unwound for ever; with unwinding assertions on, hitting this limit is reported
+        # as a failed auxiliary obligation (undecided), never as success.
+        flags += ['--unwind', str(unit.get('unwind_guard', 64)), '--unwinding-assertions']
     if unit.get('_no_loop_contracts'):
         flags += ['--unwind', str(unit.get('falsify_unwind', 8)), '--no-unwinding-assertions']
     solver_choice = unit.get('solver', spec.get('solver'))
